@@ -770,8 +770,33 @@ class C12(Check):
                     user = user[:i] + [[name, d]] + user[i + 1:]
         return dict({"user": user, "cmds": cmds}, **({"e2e": case["e2e"]} if case.get("e2e") else {}))
 
+    # ---- S versus the real compilers that happen to be installed (validates the built-in tables' claim) ----
+    def self_tests(self):
+        import subprocess
+        problems = []
+        self.oracle_cases = 0
+        names = [n for n in ("gcc", "g++", "clang", "clang++") if shutil.which(n)]
+        if not names:
+            return problems
+        cmds = [[n, fl] for n in names for fl in ([], ["-fopenmp"])]
+        ans = common.run_model("C12", [self.encode({"user": [], "cmds": cmds})])[0]
+        for (n, fl), a in zip(cmds, ans):
+            sres = a[3]
+            says = sres != "NA" and any(c[0] == "default" and any("_OPENMP" in b[0] for b in c[4]) for c in sres[1])
+            try:
+                pr = subprocess.run([n] + fl + ["-x", "c", "-dM", "-E", "-"], input="", capture_output=True, text=True, timeout=60)
+            except Exception:  # noqa
+                continue
+            if pr.returncode != 0:
+                continue
+            self.oracle_cases += 1
+            real = any(l.startswith("#define _OPENMP ") for l in pr.stdout.splitlines())
+            if real != says:
+                problems.append(f"S says _OPENMP {'defined' if says else 'undefined'} for '{n} {' '.join(fl)}' but the installed {n} says the opposite")
+        return problems
+
     def extra_coverage(self):
-        return {"input_distribution": self.hist}
+        return {"input_distribution": self.hist, "spec_oracle_cases": getattr(self, "oracle_cases", 0)}
 
 
 CHECK = C12
